@@ -22,6 +22,13 @@ CHECKS = {
         technique="deterministic simulation: seeded virtual-time worker pools, baton-passed real threads pre-empted at RNG draws, differential replay across schedule seeds",
         design="4/C31",
     ),
+    "C66": dict(
+        category="exploration",
+        text="Seeded search over thread interleavings: 2-4 real threads (plus threads spawned from inside contexts) run generated programs of nested local_decomps contexts with add/fix/observe/raise/decompose statements; the simulator hands the baton between them after every statement and at seeded line events inside decomposition_rule.py and decomposition_graph.py (bounded pre-emption, including inside the registry copy loop and between the two ContextVar.set calls). After every step each thread's view must equal a per-thread stack-of-snapshots model, threads outside all contexts must see the pristine registry, decompose() must give the output it gives alone, and the global registry must be unchanged at the end.",
+        note="Trusted: CPython's contextvars and the atomicity of single bytecode-level dict operations; pre-emption is at Python line granularity in two files and is never placed while a recording (queuing) context is open, because the queuing stack is process-global by design and outside this property. Global add_decomps outside a context is not generated.",
+        technique="deterministic simulation: baton-passed real threads, seeded statement- and line-level pre-emption (sys.settrace), exception injection inside contexts, reference = per-thread snapshot stack",
+        design="4/C66",
+    ),
 }
 
 NA = {}
